@@ -1,6 +1,7 @@
 import GateryModel.C15.Spec
 import GateryModel.C15.Gray
 import GateryModel.C15.Array
+import GateryModel.C15.Trans
 /-!
 Driver for C15: reads the harness protocol (harness/c15.cpp) on stdin.
 
@@ -34,6 +35,9 @@ structure Case where
   q : QState String := {}
   modelOk : Bool := true      -- false after the first DIFF of the case
   dual : Bool := false
+  trans : Bool := false       -- case drives scl::TransactionalFifo
+  tst : TState String := tinit { k := 0, lw := 1, lr := 1 } "x"
+  tq : TSpec String := {}
   arr : Bool := false         -- case drives scl::FifoArray
   ast : ArrState String := []
   aqs : List (List String) := []
@@ -83,6 +87,21 @@ def startCase (d : D) (toks : List String) (lineNo : Nat) : IO D := do
   let lat := (parseLat (get "lat")).getD .dontCare
   let model := mkCfg minD dual lat
   let mut d := { d with cases := d.cases + 1 }
+  if field toks "mode" == some "trans" then
+    d := { d with hist := (d.hist.bump "trans").bump s!"trans_lat_{(get "lat").take 1}" }
+    match field toks "err", model with
+    | none, some m =>
+      let implCfg : Cfg := { k := (get "k").toNat!, lw := (get "lw").toNat!, lr := (get "lr").toNat! }
+      let mut ok := true
+      if m.k != implCfg.k || m.lw != implCfg.lw || m.lr != implCfg.lr then
+        IO.println s!"DIFF case={id} line={lineNo} what=config model={repr m} impl={repr implCfg}"
+        d := { d with diffs := d.diffs + 1 }; ok := false
+      let x := String.ofList (List.replicate w 'x')
+      return { d with hist := d.hist.bump s!"trans_lw{implCfg.lw}",
+                      cs := { id := id, cfg := implCfg, w := w, active := true, trans := true, tst := tinit implCfg x, tq := {}, modelOk := ok, line0 := lineNo } }
+    | err, m =>
+      IO.println s!"DIFF case={id} line={lineNo} what=config model={repr m} impl=err:{err}"
+      return { d with diffs := d.diffs + 1, errcases := d.errcases + 1, cs := { id := id, active := false } }
   if field toks "mode" == some "array" then
     let kf := (get "kf").toNat!
     let c : Cfg := { k := (get "k").toNat!, lw := 1, lr := 1 }
@@ -302,6 +321,60 @@ def doArray (d : D) (toks : List String) (lineNo : Nat) : IO D := do
     IO.println s!"DIFF case={cs.id} line={lineNo} what=unparsed-event"
     return { d with diffs := d.diffs + 1 }
 
+/-- `x <rst> <push> <data> <pushCommit> <pushRollback> <cutoff> <pop> <popCommit> <popRollback> | <full> <pvalid> <psize> | <empty> <qvalid> <qsize> <peek>` -/
+def doTrans (d : D) (toks : List String) (lineNo : Nat) : IO D := do
+  let cs := d.cs
+  if !cs.active then return d
+  match toks with
+  | [_, rst, push, data, pc, pr, cut, pop, qc, qr, _, full, pvalid, psize, _, empty, qvalid, qsize, peek] =>
+    let c := cs.cfg
+    let e : TEv String := { rst := b rst, pushReq := b push, data := data, pushCommit := b pc, pushRollback := b pr, cutoff := cut.toNat!,
+                            popReq := b pop, popCommit := b qc, popRollback := b qr }
+    let oi : TOut String := { full := b full, pushValid := b pvalid, pushSize := binVal psize, empty := b empty, popValid := b qvalid,
+                              popSize := binVal qsize, peek := peek }
+    let mut d := { d with events := d.events + 1 }
+    let mut cs := cs
+    if cs.modelOk then
+      let om := toutputs c cs.tst e
+      let sm := s!"{bs om.full} {bs om.pushValid} {bitsOf om.pushSize (c.k+1)} | {bs om.empty} {bs om.popValid} {bitsOf om.popSize (c.k+1)} {om.peek}"
+      let si := s!"{full} {pvalid} {psize} | {empty} {qvalid} {qsize} {peek}"
+      if sm != si then
+        IO.println s!"DIFF case={cs.id} line={lineNo} event={cs.events} what=trans-outputs model=[{sm}] impl=[{si}]"
+        d := { d with diffs := d.diffs + 1 }
+        cs := { cs with modelOk := false }
+      else if !e.rst then
+        cs := { cs with tst := tstep c cs.tst e }
+    let q := cs.tq
+    let (viol, q') := if cs.specOk then tcheck c.N c.lw q e oi else ([], q)
+    for v in viol do
+      IO.println s!"PROPFAIL case={cs.id} line={lineNo} event={cs.events} kind={v} committed={q.com.length} tentativePushed={q.tent.length} popCommitted={q.gc} popTentative={q.gt} N={c.N} lw={c.lw} ev=[{" ".intercalate toks}]"
+      d := { d with propfails := d.propfails + 1 }
+    if !viol.isEmpty then cs := { cs with specOk := false }
+    let mut cov := d.cov
+    if e.rst then cov := cov.bump "reset_events"
+    else
+      cov := cov.bump "trans_cycles"
+      if oi.pushValid then cov := cov.bump "trans_accepted"
+      if oi.popValid then cov := cov.bump "trans_yielded"
+      if e.pc then cov := cov.bump "trans_push_commits"
+      if e.pc && e.cutoff > 0 then cov := cov.bump "trans_push_commits_with_cutoff"
+      if e.pr then cov := cov.bump "trans_push_rollbacks"
+      if e.qc then cov := cov.bump "trans_pop_commits"
+      if e.qr then cov := cov.bump "trans_pop_rollbacks"
+      if e.qr && oi.popValid then cov := cov.bump "trans_pop_with_rollback_same_cycle"
+      if e.qr && oi.popValid && q.gt > 0 then cov := cov.bump "trans_pop_with_rollback_after_tentative_pops"
+      if e.pr && oi.pushValid then cov := cov.bump "trans_push_with_rollback_same_cycle"
+      if e.pushCommit && e.pushRollback then cov := cov.bump "trans_push_commit_and_rollback_same_cycle"
+      if e.popCommit && e.popRollback then cov := cov.bump "trans_pop_commit_and_rollback_same_cycle"
+      if e.qc && oi.popValid then cov := cov.bump "trans_pop_with_commit_same_cycle"
+      if e.pushReq && oi.full then cov := cov.bump "trans_push_attempt_when_full"
+      if oi.full && q.gt > 0 then cov := cov.bump "trans_full_while_pops_uncommitted"
+    d := { d with cov := cov }
+    return { d with cs := { cs with tq := q', events := cs.events + 1 } }
+  | _ =>
+    IO.println s!"DIFF case={cs.id} line={lineNo} what=unparsed-event"
+    return { d with diffs := d.diffs + 1 }
+
 partial def loop (h : IO.FS.Stream) (d : D) (lineNo : Nat) : IO D := do
   let line ← h.getLine
   if line.isEmpty then return d
@@ -314,6 +387,7 @@ partial def loop (h : IO.FS.Stream) (d : D) (lineNo : Nat) : IO D := do
   | "s" :: _ => loop h (← doStreamEvent d toks lineNo) (lineNo + 1)
   | "g" :: _ => loop h (← doGray d toks lineNo) (lineNo + 1)
   | "a" :: _ => loop h (← doArray d toks lineNo) (lineNo + 1)
+  | "x" :: _ => loop h (← doTrans d toks lineNo) (lineNo + 1)
   | "abort" :: rest =>
     IO.println s!"DIFF case={d.cs.id} line={lineNo} what=harness-abort msg=[{" ".intercalate rest}]"
     loop h { d with diffs := d.diffs + 1 } (lineNo + 1)
